@@ -11,13 +11,29 @@ use crate::obs::{budget_for, make_iter, parse_script, parse_slice, step_next, Cf
 use crate::refmodel::{hex, ref_encode, Kind, NItem, Node, SizeEnc, Val};
 use crate::spec::{v_refspec, RefSpec, ID_B, ID_K, ID_KU, ID_L, ID_LB, ID_M, ID_MU, ID_N, ID_ROOT, ID_TAG, ID_U, ID_VOID, V};
 
-/// Source that reports a temporary end of file (Ok(0)) exactly once at each of the given positions.
+/// Source that reports a temporary end of file at each of the given positions: once the position is reached
+/// every read() returns Ok(0) until the harness resumes it (which it does after the iterator returned None), the
+/// way a growing file or a live stream behaves.
 pub struct PauseScript<'a> {
     pub data: &'a [u8],
     pub pos: usize,
     pub pauses: &'a [usize],
-    pub paused_at: Vec<usize>,
+    /// positions whose pause has been lifted
+    pub resumed: Vec<usize>,
+    pub zero_reads: usize,
     pub chunk: usize,
+}
+
+impl<'a> PauseScript<'a> {
+    fn paused(&self) -> bool {
+        self.pauses.contains(&self.pos) && !self.resumed.contains(&self.pos)
+    }
+    pub fn resume(&mut self) {
+        let p = self.pos;
+        if !self.resumed.contains(&p) {
+            self.resumed.push(p);
+        }
+    }
 }
 
 impl<'a> Read for PauseScript<'a> {
@@ -25,11 +41,11 @@ impl<'a> Read for PauseScript<'a> {
         if buf.is_empty() {
             return Ok(0);
         }
-        if self.pauses.contains(&self.pos) && !self.paused_at.contains(&self.pos) {
-            self.paused_at.push(self.pos);
+        if self.paused() {
+            self.zero_reads += 1;
             return Ok(0);
         }
-        let next_pause = self.pauses.iter().copied().filter(|p| *p > self.pos).min().unwrap_or(self.data.len());
+        let next_pause = self.pauses.iter().copied().filter(|p| *p > self.pos && !self.resumed.contains(p)).min().unwrap_or(self.data.len());
         let n = (next_pause - self.pos).min(buf.len()).min(self.chunk);
         buf[..n].copy_from_slice(&self.data[self.pos..self.pos + n]);
         self.pos += n;
@@ -38,7 +54,7 @@ impl<'a> Read for PauseScript<'a> {
 }
 
 pub fn drive_pauses(bytes: &[u8], cfg: &Cfg, pauses: &[usize], chunk: usize) -> (Obs, usize) {
-    let src = PauseScript { data: bytes, pos: 0, pauses, paused_at: Vec::new(), chunk };
+    let src = PauseScript { data: bytes, pos: 0, pauses, resumed: Vec::new(), zero_reads: 0, chunk };
     let mut it: TagIterator<PauseScript, V> = make_iter(src, cfg);
     let mut items = Vec::new();
     let mut resumed = 0usize;
@@ -50,7 +66,9 @@ pub fn drive_pauses(bytes: &[u8], cfg: &Cfg, pauses: &[usize], chunk: usize) -> 
         match step_next(&mut it) {
             Err(p) => return (Obs { items, term: Term::Panic(p) }, resumed),
             Ok(None) => {
+                // the stream "grows": lift the pause (if any) and ask again
                 if it.get_ref().pos < bytes.len() && resumed <= pauses.len() + 2 {
+                    it.get_mut().resume();
                     resumed += 1;
                     continue;
                 }
@@ -191,7 +209,7 @@ impl<'a> Runner<'a> {
                 }
             }
         }
-        let bs: Vec<usize> = boundaries.iter().copied().filter(|b| *b > 0 && *b < input.len()).collect();
+        let bs: Vec<usize> = boundaries.iter().copied().filter(|b| *b < input.len()).collect();
         let bs = if bs.len() > 8 { bs[..8].to_vec() } else { bs };
         for mask in 0u32..(1u32 << bs.len()) {
             let pauses: Vec<usize> = (0..bs.len()).filter(|i| mask >> i & 1 == 1).map(|i| bs[i]).collect();
@@ -206,6 +224,7 @@ impl<'a> Runner<'a> {
                 if !pauses.is_empty() {
                     ctx.nontrivial();
                     ctx.count("temporary_eof_pauses", pauses.len() as u64);
+                    ctx.count("pauses_seen_as_none_by_the_caller", resumed as u64);
                 }
                 if obs != reference {
                     let key = format!("{}eof-pause/{}", if cap == Some(0) { "capacity-below-16/" } else { "" }, if obs.items != reference.items { "items-differ-from-slice-parse" } else { "final-error-differs" });
@@ -260,7 +279,7 @@ pub fn run(ctx: &mut Ctx) {
     ctx.meta("rule", "cases: (input, configuration, read schedule); inputs = Σ* up to length n, documents of T∘E, their truncations at every byte and single-byte corruptions, two documents > 64 KiB; for inputs up to the composition bound ALL 2^(len-1) compositions into read() results x 14 capacities (0,1,2,3,4,7,8,15,16,17,len-1,len,len+1,default); longer inputs: schedules with <= 2 short reads x capacities; with end-of-stream closing off: Ok(0) pauses at every subset of (up to 8) tag boundaries x {default, 16, chunk 3, capacity 0 with 1-byte reads}. Oracle: differential - items, offsets and the first error (all fields) equal the slice parse of the same bytes and configuration. Non-trivial: schedules with >= 1 short read or pause.");
     ctx.meta("bounds", &format!("Σ* length <= {}; all compositions for inputs <= {} bytes; <= 2 deviations beyond", sigma_n, max_comp_len));
     ctx.meta("assumptions", "Read implementations that return more than requested or lie about lengths are out of scope");
-    for c in ["long_header_documents", "first_read_shorter_than_a_header", "capacity_below_16", "input_larger_than_capacity(compaction)", "temporary_eof_pauses", "big_inputs(growth)"] {
+    for c in ["pauses_seen_as_none_by_the_caller", "long_header_documents", "first_read_shorter_than_a_header", "capacity_below_16", "input_larger_than_capacity(compaction)", "temporary_eof_pauses", "big_inputs(growth)"] {
         ctx.expect_nonzero(c);
     }
     let strict = Cfg::strict();
